@@ -60,6 +60,7 @@ Created(e) == SelectSeq(e.newl0, LAMBDA f : ~f.fetched)
 RECURSIVE CursorAt(_)
 CursorAt(k) ==
   IF k < 1 \/ Log[k].op = "Reset" THEN [gen |-> 0, end |-> 0]
+  ELSE IF Log[k].op \in {"LsReset", "MetaLost"} /\ Log[k].res = "ok" /\ Len(Log[k].newl0) = 0 THEN [gen |-> 0, end |-> 0]
   ELSE IF Len(Log[k].newl0) > 0
          THEN LET f == Log[k].newl0[Len(Log[k].newl0)] IN [gen |-> f.gen, end |-> f.off + f.len]
          ELSE CursorAt(k - 1)
@@ -69,6 +70,13 @@ Unsynced(k) ==
   LET w == Log[k].wal  c == CursorAt(k) IN
   /\ w.exists /\ w.commit > 0
   /\ IF w.gen = c.gen THEN w.commit > c.end ELSE TRUE
+
+ToSet(sq) == {sq[i] : i \in DOMAIN sq}
+RemSeen == UNION {ToSet(Log[k].newrem) : k \in t0..l}              \* every replica file ever observed in this trace
+Pairs(f) == {<<f.pgs[i], f.ids[i]>> : i \in DOMAIN f.pgs}
+PgSet(f) == {f.pgs[i] : i \in DOMAIN f.pgs}
+L0Known(n) == \E f \in RemSeen : f.lvl = 0 /\ f.min = n /\ f.max = n /\ f.err = "none"
+L0At(n) == CHOOSE f \in RemSeen : f.lvl = 0 /\ f.min = n /\ f.max = n /\ f.err = "none"
 
 Init == l = 1 /\ lost = FALSE /\ reset = FALSE /\ floor = 0 /\ idleN = 0 /\ idleNew = 0 /\ t0 = 1 /\ lastAck = 1 /\ retained = FALSE /\ pendLoss = FALSE /\ sameSince = FALSE /\ hz = {}
 
@@ -81,7 +89,11 @@ Next ==
            chkLoss   == IsChk(e) /\ genChanged /\ Unsynced(l)        \* litestream's own PRAGMA removed frames it had not copied
            \* ... which is only a loss if that checkpoint then fails before its boundary snapshot (G1)
            byChk     == ChkFailed(e) /\ (pendLoss \/ chkLoss)
-           destroyed == (IsApp(e) /\ e.res # "skip" /\ genChanged /\ Unsynced(l)) \/ byChk
+           \* the local state went away together with level-0 files that were never uploaded, and the WAL generation those
+           \* frames lived in is gone too (the replica's last file, which litestream will re-fetch, is from another generation)
+           resetLoss == /\ e.op \in {"LsReset", "MetaLost"} /\ e.res = "ok" /\ p.lpos > p.rpos /\ p.rpos > 0
+                        /\ L0Known(p.rpos) /\ e.wal.exists /\ e.wal.gen # L0At(p.rpos).gen
+           destroyed == (IsApp(e) /\ e.res # "skip" /\ genChanged /\ Unsynced(l)) \/ byChk \/ resetLoss
            \* the database file itself was replaced by another version: whatever the WAL looks like, the old chain is void.
            \* (A lost/reset local state directory alone is NOT in this class: litestream re-fetches its last file from the
            \* replica and may legitimately prove continuity against an untouched WAL.)
@@ -103,7 +115,11 @@ Next ==
                \* F1: stale syncedToWALEnd on a reopened DB object makes a foreign truncation look like litestream's own
                \cup (IF (Len(Created(e)) > 0 \/ e.ack) /\ lost0 /\ sameSince /\ p.wal.slots < c.end THEN {"F1"} ELSE {})
                \* F2: the WAL was restarted and the new generation is still shorter than the old cursor
-               \cup (IF (Len(Created(e)) > 0 \/ e.ack) /\ lost0 /\ p.wal.exists /\ p.wal.gen # c.gen /\ p.wal.valid < c.end THEN {"F2"} ELSE {})
+               \cup (IF (Len(Created(e)) > 0 \/ e.ack) /\ lost0 /\ p.wal.exists
+                        /\ LET cc == IF Len(e.newl0) > 0 /\ e.newl0[1].fetched
+                                       THEN [gen |-> e.newl0[1].gen, end |-> e.newl0[1].off + e.newl0[1].len] ELSE c
+                           IN p.wal.gen # cc.gen /\ p.wal.valid < cc.end
+                     THEN {"F2"} ELSE {})
                \* G1: a litestream checkpoint failed after its PRAGMA had destroyed frames that were never copied
                \cup (IF byChk THEN {"G1"} ELSE {})
                \* Z1: a sync/checkpoint acquired the executor of a DB that was no longer open (check-then-act in Store.SyncDB / DB.Sync)
@@ -170,12 +186,6 @@ C14_BookkeepingOnly_ == IsStep => (cur.lockN \in {0, -1} /\ cur.integ = "ok" /\ 
 -----------------------------------------------------------------------------
 (* Replica layer: C05 (storage faults), C06 (compaction), C07 (retention).  Files are what the recorder decoded from *)
 (* the replica directory (newrem: files that appeared or changed in a step).                                          *)
-ToSet(sq) == {sq[i] : i \in DOMAIN sq}
-RemSeen == UNION {ToSet(Log[k].newrem) : k \in t0..l}              \* every replica file ever observed in this trace
-Pairs(f) == {<<f.pgs[i], f.ids[i]>> : i \in DOMAIN f.pgs}
-PgSet(f) == {f.pgs[i] : i \in DOMAIN f.pgs}
-L0Known(n) == \E f \in RemSeen : f.lvl = 0 /\ f.min = n /\ f.max = n /\ f.err = "none"
-L0At(n) == CHOOSE f \in RemSeen : f.lvl = 0 /\ f.min = n /\ f.max = n /\ f.err = "none"
 RECURSIVE ComposeRange(_, _)
 ComposeRange(a, b) == IF a > b THEN {}
                       ELSE LET base == ComposeRange(a, b - 1)  f == L0At(b)
